@@ -123,6 +123,18 @@ func (m *Machine) drawAvs(t *rapid.T, g *GenOpts, a *Action) {
 		if pct(t, 4, "bogus-asset?") {
 			x.Assets = append(x.Assets, -1)
 		}
+		if g.WideChains {
+			// a token that was registered during this history (index 100+k = the k-th of them)
+			n := 0
+			for i, b := range m.Log {
+				if b.Kind == "regToken" && i < len(m.Outs) && m.Outs[i].OK {
+					n++
+				}
+			}
+			if n > 0 && pct(t, 40, "registered-token-asset?") {
+				x.Assets = append(x.Assets, 100+uniform(t, n, "which-registered"))
+			}
+		}
 		ids := m.epochIDs()
 		x.Epoch = ids[uniform(t, len(ids), "epoch")]
 		if len(m.W.Cfg.ExtraEpochs) > 0 && pct(t, 70, "fast-epoch?") {
